@@ -148,6 +148,8 @@ func targets() []target {
 	for _, p := range []string{"H.In", "H.Pn"} {
 		ts = append(ts, fieldTarget(p+".X", tI64), fieldTarget(p+".Y", tU16), fieldTarget(p+".Z", tF64), fieldTarget(p+".W", tI8), fieldTarget(p+".F3", tF32))
 	}
+	// promoted fields of embedded structs, one and two levels deep
+	ts = append(ts, fieldTarget("H.EI", tI64), fieldTarget("H.EU", tU16), fieldTarget("H.EF", tF64), fieldTarget("H.In.DX", reflect.TypeOf(int32(0))), fieldTarget("H.Pn.DX", reflect.TypeOf(int32(0))))
 	ts = append(ts,
 		ptrTarget("PI8", tI8), ptrTarget("PI64", tI64), ptrTarget("PU16", tU16), ptrTarget("PU64", tU64), ptrTarget("PF32", tF32), ptrTarget("PF64", tF64),
 		// containers, literal keys
@@ -315,7 +317,7 @@ func runHostRules(k *fw.Case, seed int64, rules []*hostRule, extra map[string]in
 	}
 	rb, err := compileWith(fxG, extra, text.String())
 	if err != nil {
-		k.Inconclusive("generated host-access text does not compile: " + trunc(err.Error(), 300) + " text: " + trunc(text.String(), 600))
+		noCompile(k, "host-access", err, text.String())
 		return
 	}
 	res, eerr, pan := execSort(rb)
@@ -474,7 +476,7 @@ func RunC03Random(k *fw.Case) {
 				t  string
 				el *gen.Elem
 			}
-			opts := []cu{{t: "H.I64"}, {t: "H.I16"}, {t: "H.F64"}, {t: "H.In.X"}, {t: "H.Pn.Z"}, {el: &gen.Elem{Cont: "M64", KeyStr: sp("zz")}}, {el: &gen.Elem{Cont: "PS", KeyInt: ip(2)}},
+			opts := []cu{{t: "H.I64"}, {t: "H.I16"}, {t: "H.F64"}, {t: "H.In.X"}, {t: "H.Pn.Z"}, {t: "H.EI"}, {t: "H.Pn.DX"}, {el: &gen.Elem{Cont: "M64", KeyStr: sp("zz")}}, {el: &gen.Elem{Cont: "PS", KeyInt: ip(2)}},
 				{el: &gen.Elem{Cont: "MF", KeyStr: sp("b")}}, {el: &gen.Elem{Cont: "H.MS", KeyStr: sp("k3")}}, {el: &gen.Elem{Cont: "VS", KeyInt: ip(1)}}, {t: "H.S"}}
 			o := opts[r.Intn(len(opts))]
 			op := []string{"+=", "-=", "*=", "/="}[r.Intn(4)]
@@ -612,7 +614,14 @@ rule "fn" salience 2 begin return getv() end
 rule "t" salience 1 begin return Holder.In.Get() end
 rule "w" salience 0 begin Obj.V = Obj.V + 1000 return Obj.V end
 rule "pw" salience -1 begin Cnt = 5 Cnt2 := 6 end
+rule "mid" salience -2 begin Late = 7 injlate() return Late end
+rule "midarg" salience -3 begin Late2 = 7 seen = reidn(Late2) injlate2() return reidn(Late2) + seen end
 `
+	// the name of a local gets injected WHILE the rule runs (by a host function the rule calls): from then on
+	// the name refers to the injected object, also in the rest of that execution
+	dc.Add("injlate", func() { dc.Add("Late", int64(500)) })
+	dc.Add("injlate2", func() { dc.Add("Late2", int64(600)) })
+	dc.Add("reidn", func(v int64) int64 { return v })
 	if err := trace.CompileLocked(func() error { return rb.BuildRuleFromString(text) }); err != nil {
 		k.Inconclusive("reinjection text does not compile: " + err.Error())
 		return
@@ -622,6 +631,8 @@ rule "pw" salience -1 begin Cnt = 5 Cnt2 := 6 end
 	check := func(label string, want map[string]int64) {
 		step++
 		var pan interface{}
+		dc.Del("Late", "Late2")
+		want["mid"], want["midarg"] = 500, 607
 		func() {
 			defer func() { pan = recover() }()
 			eng.Execute(rb, true)
